@@ -92,10 +92,10 @@ CHECKS = {
         "note": "All change days of piecewise parameters since 1980 (quick: latest 30 + seeded earlier ones); exact decimals with 1e-12 (parser) and 1e-9 (evaluation) relative tolerance for binary floating point; shape lemmas for degree <= 2.",
     },
     "C19": {
-        "level": "model_checking",
+        "level": "exploration",
         "technique": "TLA+ regime machine along the wage axis (Contrib.tla) model-checked on abstract parameters (MC_Contrib); wage sweeps of the real contribution rules validated step by step by TLC (Trace_Contrib)",
         "text": "Contrib.tla treats the gross wage as a behaviour and states the statutory shape as step properties: non-negative, zero for marginal employment, non-decreasing, constant above the assessment ceiling, no jump except at the mini-job threshold (the transition-zone contributions meet the regular ones at the upper boundary), employee + employer = total in the zone. TLC proves regime order and boundary inclusiveness on abstract parameters; for every change date of the contribution parameters and east/west x children x age branch one vectorised run over a wage grid plus every statutory boundary +-1 cent is validated step by step, including that the observed mini-job / transition-zone flags equal the regime.",
-        "note": "Change dates since 2015 (quick: latest 4 + seeded 4; thorough since 2003-04), 2-4 branches each; boundaries read from the environment (C07 binds their resolution); slope bound 1 for NoJump; regular employees only.",
+        "note": "Claimed as exploration: the regime machine is model-checked only on abstract parameters; the real contribution rules are explored by dense wage sweeps judged step by step by TLC. Change dates since 2015 (quick: latest 4 + seeded 4 + 2017-01-01; thorough all, earlier dates recorded only), 2-4 branches each; boundaries read from the environment (C07 binds their resolution); slope bound 1 for NoJump; regular employees only.",
     },
     "C17": {
         "level": "model_checking",
@@ -104,10 +104,10 @@ CHECKS = {
         "note": "Grid amounts are multiples of 100 EUR; two-unit states sampled in quick; full-system runs are seeded samples at 3 (thorough 10) dates; the evidence records how many persons actually received each benefit (vacuity guard).",
     },
     "C15": {
-        "level": "model_checking",
+        "level": "exploration",
         "technique": "TLA+ constancy-level typing of the real function table over the nesting order of the units (Levels.tla) giving static candidates; every group-suffixed column of witness runs validated by TLC for one value per group (Trace_Levels)",
         "text": "Levels.tla types each node with the set of groupings within which it is certainly constant (data by suffix, aggregates and ids by their group, rules by the meet of their arguments, using the nesting that Households.tla proves) and TLC lists the group-suffixed nodes whose constancy it cannot prove. Witness populations (several structures in one household, unmarried couples, spouses apart, self-sufficient children; members differ in every individual-level input) are simulated with all non-time-derived nodes and TLC checks every group-suffixed column against the id column of its group; violations are reduced to root-cause nodes.",
-        "note": "Static typing yields candidates only (recorded in the evidence); a VIOLATION needs a dynamic witness. mietstufe and wohnort_ost are treated as household-level facts by the generator. Populations are seeded samples at 4 (thorough 10) dates.",
+        "note": "Claimed as exploration: the verdict comes from sampled witness populations judged by TLC; the static typing by TLC over the whole function table yields candidates only (recorded in the evidence). mietstufe and wohnort_ost are treated as household-level facts by the generator. Populations are seeded samples at 4 (thorough 10) dates.",
     },
     "C16": {
         "level": "exploration",
